@@ -32,10 +32,12 @@ def generate(T, tier):
     for mod, sb in (("gps1059", 6), ("glo1065", 5)):
         num = mod[3:]
         for inst, t in (("sat0", "quick"), ("sat1", "thorough"), ("sat_mid", "thorough"), ("sat_max", "quick"), ("sat_over", "quick"), ("sat_255", "thorough")):
+            if num == "1065" and inst != "sat_max":
+                t = "thorough"
             hs.append({"name": "c16::%s::one_%s" % (mod, inst), "group": "main", "tier": t,
                        "bounds": "%s: one entry on a concrete satellite id (%s), every recognised signal, every f32 bias bit pattern" % (num, inst)})
-        hs.append({"name": "c16::%s::pattern" % mod, "group": "main", "tier": "quick", "bounds": "%s: all 2^14 bias patterns decode and re-encode to themselves" % num})
-        hs.append({"name": "c16::%s::all_satellites" % mod, "group": "wide", "tier": "quick", "bounds": "%s: one entry on every satellite id of the range (count-field boundary): Err or all entries come back" % num})
+        hs.append({"name": "c16::%s::pattern" % mod, "group": "main", "tier": "quick" if num == "1059" else "thorough", "bounds": "%s: all 2^14 bias patterns decode and re-encode to themselves" % num})
+        hs.append({"name": "c16::%s::all_satellites" % mod, "group": "wide", "tier": "quick" if num == "1059" else "thorough", "bounds": "%s: one entry on every satellite id of the range (count-field boundary): Err or all entries come back" % num})
         sig_id = T.ssr[num][0][0]
         nsat = 13
         tb, mb = capacity_payload(sb, nsat, 31, sig_id)
@@ -64,10 +66,11 @@ pub fn capacity_%(num)s() {
         hs.append({"name": "c16::capacity_%s" % num, "group": "cap", "tier": "quick" if num == "1059" else "thorough",
                    "bounds": "%s decode of a %d-byte payload announcing %d entries (capacity 390), bias bits symbolic: no panic, never more than 390 entries" % (num, n, nsat * 31)})
     for g in ("g1059_737", "g1059_377", "g1059_773", "g1059_555", "g1059_desc", "g1059_adj", "g1065_737", "g1065_377", "g1065_desc", "g1065_555"):
-        hs.append({"name": "c16::%s" % g, "group": "main", "tier": "quick" if g in ("g1059_737", "g1065_desc") else "thorough",
+        hs.append({"name": "c16::%s" % g, "group": "main", "tier": "quick" if g in ("g1059_737",) else "thorough",
                    "bounds": "three entries on satellites %s, symbolic distinct recognised signals, symbolic grid biases: decoded == stable regrouping by ascending satellite" % g.split("_")[1]})
     hs.append({"name": "c16::ssr_tables", "group": "main", "tier": "quick", "bounds": "1059 signal table through the codec: every (u8 band, char attribute)"})
-    hs.append({"name": "c16::glo_1230", "group": "main", "tier": "quick", "bounds": "1230: 0..=4 entries, distinct recognised signals in any order, symbolic 16-bit grid biases"})
+    for inst, t in (("empty", "quick"), ("3210", "quick"), ("0123", "thorough"), ("2031", "thorough"), ("30", "thorough"), ("1", "thorough")):
+        hs.append({"name": "c16::glo_1230_%s" % inst, "group": "main", "tier": t, "bounds": "1230: entries for signals in caller order %s (distinct, recognised), symbolic 16-bit grid biases" % inst})
     hs.append({"name": "c16::glo_1230_unknown", "group": "main", "tier": "quick", "bounds": "1230: any descriptor: accepted iff recognised"})
     gen.write_gen("c16_list.rs", "use crate::util::*;\n" + "\n".join(code))
     return {
@@ -76,7 +79,7 @@ pub fn capacity_%(num)s() {
         "level": "model_checking",
         "functions": ["df::dfs::df_msg1059_biases::{encode,decode}", "df::dfs::df_msg1065_biases::{encode,decode}", "df::dfs::df_msg1230_biases::{encode,decode}"],
         "bounds": {"one": "single entry: satellite id from {0, 1, mid, max, max+1, 255}, signal and bias symbolic", "group": "3 entries on 6 (1059) / 4 (1065) concrete satellite arrangements, signals and biases symbolic",
-                   "count_wrap": "64 satellites (1059) / 32 (1065)", "capacity": "13 x 31 = 403 announced entries", "1230": "all subsets and orders of the 4 signals"},
+                   "count_wrap": "64 satellites (1059) / 32 (1065)", "capacity": "13 x 31 = 403 announced entries", "1230": "six concrete subsets/orders of the 4 signals with symbolic biases"},
         "outside": ["more than 3 entries with symbolic signals in one query; more than 31 entries per satellite (needs duplicate signals, outside the property's precondition)"],
         "assumptions": ["SSR signal tables in spec.rs typed from RTCM 10403.3"],
         "samples": [{"harness": "c16::gps1059::one_sat_max", "symbolic": {"sat": "63", "signal": "index into reference table", "bias": "all f32 bits"},
